@@ -62,6 +62,18 @@ class Trainer:
         self.TRIM_BINS = TRIM_BINS
         self.DOF_FALLBACK = DOF_FALLBACK
 
+    def _n_clusters(self):
+        """Number of clusters of the fitted clusterer (None if it does not say).
+
+        Resampler labels the active particles with the clusterer's raw labels,
+        so the mode statistics need one row per cluster of the model, including
+        clusters that attract none of the trimmed training points.
+        """
+        n_clusters = getattr(self.clusterer, "n_clusters_", None)
+        if isinstance(n_clusters, (int, np.integer)) and n_clusters > 0:
+            return int(n_clusters)
+        return None
+
     def run(self, weights: np.ndarray) -> ModeStatistics:
         """
         Fit clustering model and build mode statistics.
@@ -108,7 +120,11 @@ class Trainer:
             self.clusterer.fit(u, weights_trimmed)
             labels = self.clusterer.predict(u)
             mode_stats = ModeStatistics.from_particles(
-                u, weights_trimmed, labels, dof_fallback=self.DOF_FALLBACK
+                u,
+                weights_trimmed,
+                labels,
+                dof_fallback=self.DOF_FALLBACK,
+                n_modes=self._n_clusters(),
             )
         elif self.clustering and not refit:
             # Use previous clustering - return existing mode_stats
@@ -117,7 +133,11 @@ class Trainer:
             u = self.state.get_history("u", flat=True)[trim_idx]
             labels = self.clusterer.predict(u)
             mode_stats = ModeStatistics.from_particles(
-                u, weights_trimmed, labels, dof_fallback=self.DOF_FALLBACK
+                u,
+                weights_trimmed,
+                labels,
+                dof_fallback=self.DOF_FALLBACK,
+                n_modes=self._n_clusters(),
             )
         else:
             # No clustering - fit global Student-t distribution
